@@ -42,6 +42,10 @@ def main(argv):
                 B.build(profile, feats, kind="asan", quiet=False)
             except B.BuildError as e:
                 print("warning: asan build failed: %s" % str(e)[-300:])
+        try:
+            B.build("dev", (), kind="tsan", quiet=False)
+        except B.BuildError as e:
+            print("warning: tsan build failed: %s" % str(e)[-300:])
         tiny = os.path.join(B.WORK, "setup.req")
         os.makedirs(B.WORK, exist_ok=True)
         open(tiny, "w").write("parse S31\n")
